@@ -376,7 +376,8 @@ SPEC = {
              'number of outputs at 2^k-1, 2^k, 2^k+1 for k up to 9 (11 thorough) - every word size of the format. (d) write/read_binary_dict on dictionaries with arbitrary Unicode '
              'keys (no lone surrogates) incl. maximum-length entries, every strict prefix and an extension. (e) in-memory '
              'CircuitsDatabase add -> save -> reopen -> get_by_label with arbitrary text labels. Non-trivial: >=2 '
-             'non-input gates (circuits), >=3 writes not byte aligned (bits), >=2 entries (dict).'),
+             'non-input gates (circuits), >=3 writes not byte aligned (bits), >=2 entries (dict).'
+             ' Added during the build: a decoded circuit is changed by its owner and the same bytes decoded again; sharded size sweep.'),
     'assumptions': ['reference tables from vlib/refsem.py'],
     'subs': [Sub('codec', circuit_cases, check_codec, {'quick': 3000, 'thorough': 250000}),
              Sub('bits', bit_cases, check_bits, {'quick': 1500, 'thorough': 100000}),
